@@ -70,7 +70,15 @@ func (s *TFIDFSearcher) buildIndex() {
 	// Step 2: Build vocabulary index
 	s.vocabulary = make(map[string]int)
 	vocabIndex := 0
-	for word, docCount := range wordCounts {
+	// Assign term indices in sorted word order (not map order) so that every
+	// build of the same commands produces the same index.
+	sortedWords := make([]string, 0, len(wordCounts))
+	for word := range wordCounts {
+		sortedWords = append(sortedWords, word)
+	}
+	sort.Strings(sortedWords)
+	for _, word := range sortedWords {
+		docCount := wordCounts[word]
 		// Include unique terms (docCount >= 1) as they are highly discriminating
 		// Upper bound at 80% to exclude only very common terms
 		maxDocs := len(s.commands) * 8 / 10
@@ -107,7 +115,11 @@ func (s *TFIDFSearcher) buildIndex() {
 		s.commandTF[i] = make(map[int]float64)
 		var norm float64
 
-		for termIdx, count := range termCounts {
+		// Sum in term-index order: floating-point addition is not associative,
+		// so summing in map order gives norms that differ in the last bits
+		// between builds.
+		for _, termIdx := range sortedTermIndices(termCounts) {
+			count := termCounts[termIdx]
 			tf := float64(count) / float64(len(words))
 			tfidf := tf * s.idf[termIdx]
 			s.commandTF[i][termIdx] = tfidf
@@ -164,7 +176,8 @@ func (s *TFIDFSearcher) Search(query string, limit int) []TFIDFResult {
 
 	// Calculate query TF-IDF
 	var queryNorm float64
-	for termIdx, count := range queryTermCounts {
+	for _, termIdx := range sortedTermIndices(queryTermCounts) {
+		count := queryTermCounts[termIdx]
 		tf := float64(count) / float64(len(queryTokens))
 		tfidf := tf * s.idf[termIdx]
 		queryVector[termIdx] = tfidf
@@ -177,9 +190,10 @@ func (s *TFIDFSearcher) Search(query string, limit int) []TFIDFResult {
 	}
 
 	// Calculate cosine similarity with each command
+	queryTerms := sortedTermIndices(queryVector)
 	var results []TFIDFResult
 	for i := range s.commands {
-		similarity := s.cosineSimilarity(queryVector, queryNorm, s.commandTF[i], s.commandNorms[i])
+		similarity := s.cosineSimilarity(queryTerms, queryVector, queryNorm, s.commandTF[i], s.commandNorms[i])
 
 		if similarity > 0.01 { // Minimum similarity threshold
 			results = append(results, TFIDFResult{
@@ -204,20 +218,32 @@ func (s *TFIDFSearcher) Search(query string, limit int) []TFIDFResult {
 }
 
 // cosineSimilarity calculates cosine similarity between query and document vectors
-func (s *TFIDFSearcher) cosineSimilarity(queryVector map[int]float64, queryNorm float64,
+func (s *TFIDFSearcher) cosineSimilarity(queryTerms []int, queryVector map[int]float64, queryNorm float64,
 	docVector map[int]float64, docNorm float64) float64 {
 	if queryNorm == 0 || docNorm == 0 {
 		return 0
 	}
 
 	var dotProduct float64
-	for termIdx, queryTFIDF := range queryVector {
+	for _, termIdx := range queryTerms { // ascending term indices: a fixed summation order
+		queryTFIDF := queryVector[termIdx]
 		if docTFIDF, exists := docVector[termIdx]; exists {
 			dotProduct += queryTFIDF * docTFIDF
 		}
 	}
 
 	return dotProduct / (queryNorm * docNorm)
+}
+
+// sortedTermIndices returns the keys of a term-indexed map in ascending order,
+// giving floating-point accumulations over it a fixed order.
+func sortedTermIndices[V any](m map[int]V) []int {
+	keys := make([]int, 0, len(m))
+	for k := range m {
+		keys = append(keys, k)
+	}
+	sort.Ints(keys)
+	return keys
 }
 
 // GetVocabularyStats returns statistics about the built vocabulary
